@@ -9,4 +9,6 @@ CONSTANTS
 INVARIANT Safe
 INVARIANT CompleteRun
 INVARIANT ClosureAgrees
+INVARIANT V2Safe
+INVARIANT V2Complete
 CHECK_DEADLOCK FALSE
